@@ -753,6 +753,45 @@ pub async fn c08_io(seed: u64, thorough: bool) {
             Err(_) => h::emit_oracle_fail("local-reader-call-sequence-panicked", &desc),
         }
     }
+    // `read_at` of more than 1 MiB (a header with many thousands of descriptors): exactly the bytes asked for,
+    // and the file is read no further than the end of the range (the buffer grows in steps and may have spare
+    // capacity: it must not be filled from the file)
+    let n_big = if thorough { 12 } else { 3 };
+    for i in 0..n_big {
+        let size = (1usize << 20) + [1usize, 4096 * 37 + 11, 1 << 20, (3 << 20) + 5][i % 4];
+        let offset = [0u64, 14, 1000][i % 3];
+        let flen = offset as usize + size + (2 << 20);
+        let data = h::pattern(flen);
+        let mut file = ScriptedFile::new(data.clone(), vec![]);
+        file.default_read = Some(*[usize::MAX / 2, 70_000, (1 << 20) + 17].get(i % 3).unwrap());
+        let pos = std::sync::Arc::new(std::sync::atomic::AtomicU64::new(0));
+        file.pos_probe = Some(pos.clone());
+        let desc = format!("io-at-big flen={} offset={} size={}", flen, offset, size);
+        println!("TRY\t{}", desc);
+        let d2 = data.clone();
+        let res = tokio::spawn(async move {
+            let mut reader = IoReader::new(file);
+            match reader.read_at(offset, size).await {
+                Ok(b) => b[..] == d2[offset as usize..offset as usize + size],
+                Err(_) => false,
+            }
+        });
+        let ok = match tokio::time::timeout(std::time::Duration::from_secs(60), res).await {
+            Ok(r) => r.unwrap_or(false),
+            Err(_) => h::hung(&desc),
+        };
+        if !ok {
+            h::emit_oracle_fail("local-read-at-not-exact", &desc);
+        }
+        let reached = pos.load(std::sync::atomic::Ordering::SeqCst);
+        if reached > offset + size as u64 {
+            h::emit_oracle_fail(
+                "local-read-at-read-beyond-the-requested-range",
+                &format!("{} :: file read up to {} (range ends at {})", desc, reached, offset + size as u64),
+            );
+        }
+    }
+    h::emit_stat("read_at_larger_than_1_mib", n_big);
     h::emit_stat("cases", n_rand);
     h::emit_stat("call_sequences", n_seq);
     h::emit_stat("calls_in_sequences", seq_calls);
